@@ -25,12 +25,12 @@ MIN_RUNS = 8
 RULE = ('one evaluation = one simulated run of a sampled full-API workload (1 client, or 2-3 concurrent clients) with at most one '
         'injected failure: SQL statement n of operation j raises OperationalError (a failing COMMIT rolls back, as SQLite does on '
         'FULL/IOERR), or file-system call n of operation j (open/write/close/read/makedirs/remove/removedirs) raises OSError '
-        '(ENOSPC, EIO, EACCES, EMFILE, EEXIST), or the value is unencodable / its source stream fails, or another client holds the '
+        '(ENOSPC, EIO, EACCES, EMFILE, EEXIST), or the value is unencodable / its source stream fails / an argument is of the wrong kind (side, expire, tag, delta) while the value goes to a file, or another client holds the '
         'write lock past the timeout; for each sampled workload (j, n) is enumerated over every statement and file call of every '
         'operation in the thorough tier and sampled in the quick tier; non-trivial = a fault fired or clients interleaved; '
         'distinct = SHA-256 of the seam event log')
 ASSUMPTIONS = ['one failure per run (fault pairs are not explored)', 'if the injected failure is the unlink itself, that one file may remain (stated allowance)']
-PROBES = ('sqlerr', 'oserr', 'commit_failed', 'unencodable', 'stream_error', 'timeout_seen', 'block_aborted')
+PROBES = ('sqlerr', 'oserr', 'commit_failed', 'unencodable', 'stream_error', 'timeout_seen', 'block_aborted', 'bad_argument')
 TECHNIQUE = 'deterministic simulation with single-fault enumeration: n-th statement / n-th file call failure over all n of sampled workloads; independent directory auditor + check() at quiescence'
 LEVEL_TEXT = ('fault enumeration: workloads are sampled by seed; within a workload the single failure point is enumerated over all SQL '
               'statements and file-system calls of every operation (thorough tier), so for that workload the single-fault quantifier is '
@@ -154,6 +154,23 @@ def spice(rng, prog, ci, mfs):
                         'stream_fail': rng.choice((None, 0, 10, 30))})
         elif r < 0.26:
             out.append({'op': 'set', 'k': rng.choice(('a', 'b', 'big')), 'v': {'big': ['bytes', rng.choice((3000, 9000)), 'L%d-%d' % (ci, i)]}})
+        elif r < 0.31:
+            # a failure that is neither I/O nor SQL: an argument of the wrong kind, with a value that goes to a file
+            big = {'big': ['bytes', rng.choice((mfs + 20, 3000)), 'B%d-%d' % (ci, i)]}
+            out.append(rng.choice((
+                {'op': 'push', 'v': big, 'side': 'sideways'},
+                {'op': 'push', 'v': big, 'prefix': 'q', 'side': 'Back'},
+                {'op': 'push', 'v': big, 'expire': 'soon'},
+                {'op': 'set', 'k': 'a', 'v': big, 'expire': 'soon'},
+                {'op': 'add', 'k': 'fresh-%d' % i, 'v': big, 'expire': 'soon'},
+                {'op': 'set', 'k': 'a', 'v': big, 'tag': {'d': [['not', 'a tag']]}},
+                {'op': 'add', 'k': 'fresh-%d' % i, 'v': big, 'tag': {'l': [1]}},
+                {'op': 'push', 'v': big, 'tag': {'l': [1]}},
+                {'op': 'touch', 'k': 'a', 'expire': 'soon'},
+                {'op': 'incr', 'k': 'a', 'delta': 'x'},
+                {'op': 'pull', 'side': 'sideways'},
+            )))
+            out[-1]['badarg'] = True
         out.append(op)
     return out
 
@@ -226,6 +243,8 @@ def run_case(case):
                 probes['timeout_seen'] = probes.get('timeout_seen', 0) + 1
             elif r[1] == 'UnicodeEncodeError':
                 probes['unencodable'] = 1
+            elif h['op'].get('badarg'):
+                probes['bad_argument'] = 1
             elif r[1] == 'OSError' and h['op'].get('stream_fail') is not None:
                 probes['stream_error'] = 1
         if r and r[0] == 'ok' and isinstance(r[1], str) and r[1].startswith('abort:'):
